@@ -102,7 +102,7 @@ class Case:
             l.append("printer 1")
         if self.meta.get("key_delay_ms"):
             l.append("key_delay_ms %d" % self.meta["key_delay_ms"])
-        for k in ("highlight", "signals", "paste", "helper_panic_at", "auto_add", "printers", "printers_late", "linger", "stdout_full", "stdin_ro", "preferterm", "stdout_close_after", "max_hist", "tab_stop", "indent_size", "prompt_limit", "show_all", "bell"):
+        for k in ("highlight", "signals", "paste", "helper_panic_at", "auto_add", "printers", "printers_late", "linger", "stdout_full", "stdin_ro", "preferterm", "stdout_relay", "stdout_close_after", "max_hist", "tab_stop", "indent_size", "prompt_limit", "show_all", "bell"):
             if k in self.meta:
                 l.append("%s %s" % (k, self.meta[k]))
         for ks, cmd in self.binds:
@@ -1091,6 +1091,14 @@ def c06_cases(tier, seed):
                ["$", "d", "T", target, "d", ";", "P"], ["0", "d", "t", target, "d", ",", "P"],
                ["0", "d", "w", "c", "w", "Esc", "P"], ["$", "d", "b", "c", "b", "Esc", "p"], ["0", "d", "w", ".", "C", "Esc", "P"],
                ["$", "d", "F", target, "c", "F", rng.choice(t), "Esc", "P"]][i % 8]
+        cases.append(Case(["Esc"] + seq + ["Enter"], mode="vi", initial=(t, ""), timeout=0, prompt="> "))
+    # vi: a kill that removes NOTHING (d T c / y T c with the cursor right after c) in front of, between and after real kills,
+    # also as the very first kill of the read, then puts
+    for i in range(max(6, n // 40)):
+        t = "foo bar xbaz"
+        empty = [["f", "x", "l", "d", "T", "x"], ["f", "x", "l", "y", "T", "x"], ["f", "x", "l", "c", "T", "x", "Esc"]][i % 3]
+        seq = [["0", "d", "w"] + empty + ["D", "P"], ["0"] + empty + ["D", "P"], ["0"] + empty + ["d", "d", "P"],
+               ["0", "d", "w"] + empty + ["0", "d", "w", "P", "0", "p"]][i % 4]
         cases.append(Case(["Esc"] + seq + ["Enter"], mode="vi", initial=(t, ""), timeout=0, prompt="> "))
     # emacs: a kill / a yank, then a completion or a search, then the command that depends on what came before
     for i in range(max(6, n // 40)):
